@@ -22,6 +22,7 @@ META = {
 }
 META["explanation"] += " " + '(SB-overload) the const& and && overloads of one Value operation that do not forward to each other apply the same kind tests to this value, the source and its elements. (RV-use) an rvalue-reference parameter is only moved from, inspected through members or emptied explicitly, never named as a plain value (which copies it).'
 META["explanation"] += " " + '(PR-recurse) every path through a container arm of Value::Compress reaches the loop that compresses the children, or empties the container.'
+META["explanation"] += " " + '(IDX-digits, shared with C02) an array element is addressed by a validated decimal index only.'
 
 SUPPRESS = [
     ("Qentem::Value::Storage()", "this.array_",
@@ -196,8 +197,8 @@ def run(ctx):
                 hit += 1
         t1.suppressions.append({"rule": "TS-value", "function": fn_sig, "construct": construct, "reason": reason, "matched": hit})
     t1.notes.append("%d member functions of Value analysed; kinds %s" % (n, sorted(spec.kinds)))
-    from rules.common import rule_overload_pairs, rule_rvalue_use
-    return [t1, tx, rule_zero(ctx), rule_overload_pairs(ctx, m), rule_rvalue_use(ctx, m), rule_recurse(ctx, m)]
+    from rules.common import rule_overload_pairs, rule_rvalue_use, rule_fast_digits
+    return [t1, tx, rule_zero(ctx), rule_overload_pairs(ctx, m), rule_rvalue_use(ctx, m), rule_recurse(ctx, m), rule_fast_digits(ctx, m)]
 
 
 
